@@ -254,10 +254,22 @@ func invoke(bin string, procs int, race bool, slot int, args ...string) ([]sim.R
 				// after the run's end, e.g. from a goroutine the call left
 				// behind): it belongs to the last run executed
 				last := recs[len(recs)-1]
-				last.Result.Violation = &sim.Violation{Class: "race/late-report", Msg: "data race reported by the race detector after the run that caused it had ended", Detail: head(string(b), 6000)}
-				last.Regenerate = true
-				last.Trace = nil
-				recs[len(recs)-1] = last
+				if last.Result.Violation != nil {
+					// The run already ended in a verdict of its own (a
+					// deadlocked or hung call leaves goroutines behind that
+					// cannot be joined, so the worker reads what they wrote
+					// without a happens-before edge when it reports): the
+					// run's verdict stands, the report is only counted.
+					// (Wave h, C10-h1: a late report used to replace the
+					// deadlock verdict and then failed to replay - exit 2.)
+					last.Result.Count("note:race-report-after-a-run-that-already-ended-in-a-violation", 1)
+					recs[len(recs)-1] = last
+				} else {
+					last.Result.Violation = &sim.Violation{Class: "race/late-report", Msg: "data race reported by the race detector after the run that caused it had ended", Detail: head(string(b), 6000)}
+					last.Regenerate = true
+					last.Trace = nil
+					recs[len(recs)-1] = last
+				}
 				if code == 66 {
 					code = 0
 				}
